@@ -14,6 +14,7 @@ static ALLOC: vk::alloc_count::Counting = vk::alloc_count::Counting;
 fn outcome(h: &vk::H, v: &[u64]) -> Result<(), String> {
     let run = h.run;
     let vv = v.to_vec();
+    vk::section("");
     match panic::catch_unwind(move || run(&vv)) {
         Ok(()) => Ok(()),
         Err(e) => {
@@ -21,6 +22,10 @@ fn outcome(h: &vk::H, v: &[u64]) -> Result<(), String> {
             if !msg.starts_with("VF:") && h.panic_ok {
                 // fail-stop behaviour of the code under test, not a verdict
                 return Ok(());
+            }
+            let sec = vk::current_section();
+            if !msg.starts_with("VF:") && sec.starts_with("VF:") {
+                return Err(format!("{sec}.panic: {msg}"));
             }
             Err(msg)
         }
